@@ -1,12 +1,15 @@
 //! C14 — transaction pool vs ledger.  Runs interleavings of transaction
-//! arrivals (valid / conflicting / duplicate / invalid / repeated-input), golden
-//! tickets, local bundles (succeeding, failing, followed by a failed addition),
-//! peer blocks (confirming / conflicting / unrelated / invalid), own invalid
-//! candidates and reorganisations on a real in-memory node (`world.rs`), records
-//! after every operation the pool's transaction ids, the reservation index
-//! (`utxo_map`), the cached routing work and the golden-ticket pool, writes Coq
-//! case files comparing them with `Mempool.trace`, and evaluates the property
-//! (I1..I5 of DESIGN §8 C14) directly on the implementation.
+//! arrivals (valid / conflicting / duplicate / invalid / repeated-input /
+//! producer-only types), golden tickets, local bundles (succeeding, failing,
+//! followed by a failed addition), peer blocks (confirming / conflicting /
+//! unrelated / invalid), own invalid candidates, off-chain blocks and
+//! reorganisations on a real in-memory node (`world.rs`), with a long or a short
+//! (5 blocks: rebroadcasts) window; records after every operation the pool's
+//! transaction ids, the reservation index (`utxo_map`), the cached routing work and
+//! the golden-ticket pool, writes Coq case files comparing them with
+//! `Mempool.trace`, and evaluates the property (I1..I5 of DESIGN §8 C14) directly
+//! on the implementation.  The one listed finding: Block::create fails after
+//! draining the pool when it rebroadcasts an output that a pooled transaction spends.
 use std::collections::{BTreeMap, BTreeSet};
 use std::panic::{catch_unwind, AssertUnwindSafe};
 
@@ -30,18 +33,14 @@ const GAP: u64 = 120_000;
 
 #[derive(Clone, Copy, PartialEq, Eq, Debug, PartialOrd, Ord)]
 enum Class {
-    Invalidated,
-    Confirmed,
-    FailedCreate,
-    Readded,
+    /// Block::create fails after draining the pool because a rebroadcast it adds spends an
+    /// output that a pooled transaction spends
+    AtrClash,
 }
 impl Class {
     fn id(&self) -> &'static str {
         match self {
-            Class::Invalidated => "invalidated-tx-keeps-reservation",
-            Class::Confirmed => "confirmed-tx-keeps-reservation",
-            Class::FailedCreate => "failed-create-drains-pool",
-            Class::Readded => "readded-tx-unreserved",
+            Class::AtrClash => "failed-create-loses-pool",
         }
     }
 }
@@ -118,10 +117,9 @@ struct Ctx {
     ops: Vec<String>,
     exp: Vec<Vec<Vec<u64>>>,
     descs: Vec<String>,
+    /// outputs that were an input of some pooled transaction at some time
+    touched: BTreeSet<SaitoUTXOSetKey>,
     // oracle state
-    stale_origin: BTreeMap<SaitoUTXOSetKey, Class>,
-    readded: BTreeSet<SaitoSignature>,
-    work_taint: Option<Class>,
     /// (what, Some(known class) | None = violation)
     findings: Vec<(String, Option<Class>)>,
     // statistics
@@ -148,8 +146,8 @@ fn key_of(s: &Slip) -> SaitoUTXOSetKey {
 }
 
 impl Ctx {
-    async fn new(debug: bool, heartbeat: u64) -> Ctx {
-        let params = Params { genesis_period: 100, heartbeat, ..Params::default() };
+    async fn new(debug: bool, heartbeat: u64, genesis_period: u64) -> Ctx {
+        let params = Params { genesis_period, heartbeat, ..Params::default() };
         let mut node = Node::new(&params, NODE_KEY);
         let mut builder = Node::new(&params, BUILDER_KEY);
         let keys: Vec<_> = (1..=4u8).map(keypair).collect();
@@ -169,14 +167,12 @@ impl Ctx {
             keys,
             it: Interner::default(),
             given: BTreeMap::new(),
+            touched: BTreeSet::new(),
             nonce: 0,
             genesis_ledger: vec![],
             ops: vec![],
             exp: vec![],
             descs: vec![],
-            stale_origin: BTreeMap::new(),
-            readded: BTreeSet::new(),
-            work_taint: None,
             findings: vec![],
             stats: BTreeMap::new(),
             pooled_ever: false,
@@ -291,28 +287,13 @@ impl Ctx {
     }
 
     /// I1, I2, I3 (index form), I5 on the implementation after an operation.
-    /// `block_sigs`: signatures of the block's transactions for block operations.
-    fn check_invariants(&mut self, kind: OpKind, pre: &Snap, post: &Snap, block_sigs: &BTreeSet<SaitoSignature>) {
-        // bookkeeping of transactions put back without a reservation
-        if kind == OpKind::BlockFailedMine {
-            for (sig, (inputs, _, _)) in &post.txs {
-                if block_sigs.contains(sig) && inputs.iter().any(|(k, a)| *a > 0 && !post.umap.contains(k)) {
-                    self.readded.insert(*sig);
-                }
-            }
-        }
-        self.readded.retain(|s| post.txs.contains_key(s));
-
+    fn check_invariants(&mut self, kind: OpKind, _pre: &Snap, post: &Snap, _block_sigs: &BTreeSet<SaitoSignature>) {
         // I1: no two pooled transactions share a value-carrying input
         for (key, sp) in post.spenders() {
             if sp.len() > 1 {
-                let known = sp.iter().any(|s| self.readded.contains(s));
                 let k = self.it.get(&key);
                 let ids: Vec<u64> = sp.iter().map(|s| self.it.get(s)).collect();
-                self.finding(
-                    format!("I1: pooled transactions {:?} all spend output {}", ids, k),
-                    if known { Some(Class::Readded) } else { None },
-                );
+                self.finding(format!("I1: pooled transactions {:?} all spend output {} after {:?}", ids, k, kind), None);
             }
         }
         // I2: every pooled transaction validates against the ledger
@@ -329,66 +310,28 @@ impl Ctx {
             let what = format!("I2: pooled transaction {} does not validate against the ledger after {:?}", id, kind);
             self.finding(what, None);
         }
-        // I3: every reservation belongs to a pooled transaction
+        // I3: every reservation belongs to a pooled transaction, every input of a pooled
+        // transaction is reserved
         let owned = post.all_input_keys();
-        let stale: BTreeSet<SaitoUTXOSetKey> = post.umap.difference(&owned).cloned().collect();
-        self.stale_origin.retain(|k, _| stale.contains(k));
-        let mut newly: Vec<(SaitoUTXOSetKey, Option<Class>)> = vec![];
-        for k in &stale {
-            if self.stale_origin.contains_key(k) {
-                continue;
-            }
-            // which pooled transaction held it before the operation, and how did it leave?
-            let owner = pre.txs.iter().find(|(_, t)| t.0.iter().any(|x| x.0 == *k)).map(|(s, _)| *s);
-            let class = match (kind, owner) {
-                (OpKind::BlockAdded, Some(sig)) => {
-                    if block_sigs.contains(&sig) {
-                        Some(Class::Confirmed)
-                    } else {
-                        Some(Class::Invalidated)
-                    }
-                }
-                (OpKind::BundleNone, _) => Some(Class::FailedCreate),
-                _ => None,
-            };
-            newly.push((*k, class));
+        for k in post.umap.difference(&owned) {
+            let kk = self.it.get(k);
+            self.finding(format!("I3: reservation of output {} has no pooled transaction after {:?}", kk, kind), None);
         }
-        for (k, class) in newly {
-            let kk = self.it.get(&k);
-            match class {
-                Some(c) => {
-                    self.stale_origin.insert(k, c);
-                    self.finding(format!("I3: reservation of output {} left behind without a pooled transaction after {:?}", kk, kind), Some(c));
-                }
-                None => {
-                    self.finding(format!("I3: reservation of output {} has no pooled transaction after {:?}", kk, kind), None);
-                }
-            }
+        for k in owned.difference(&post.umap) {
+            let kk = self.it.get(k);
+            self.finding(format!("I1: input {} of a pooled transaction is not reserved after {:?}", kk, kind), None);
         }
         // I5: cached routing work = sum over the pooled transactions
         if post.work != post.sum_work() {
-            let class = match kind {
-                OpKind::BundleNone => Some(Class::FailedCreate),
-                OpKind::BlockFailedMine => Some(Class::Readded),
-                _ => None,
-            };
-            let class = if pre.work != pre.sum_work() && self.work_taint.is_some() && kind != OpKind::BlockAdded && kind != OpKind::BundleSome {
-                // still wrong since an earlier known event (arrivals add to the stale value)
-                self.work_taint
-            } else {
-                class
-            };
-            self.work_taint = class;
             self.finding(
                 format!("I5: cached routing work {} but pooled transactions carry {} after {:?}", post.work, post.sum_work(), kind),
-                class,
+                None,
             );
-        } else {
-            self.work_taint = None;
         }
         if !post.txs.is_empty() {
             self.pooled_ever = true;
         }
+        self.touched.extend(post.all_input_keys());
     }
 
     fn record(&mut self, coq_op: String, desc: String, obs: Vec<Vec<u64>>) {
@@ -470,11 +413,10 @@ impl Ctx {
         let id = self.it.get(&sig);
         if must_accept && !accepted {
             let blocking: Vec<SaitoUTXOSetKey> = vin.iter().filter(|k| pre.umap.contains(*k)).cloned().collect();
-            let class = blocking.iter().filter_map(|k| self.stale_origin.get(k)).next().cloned();
             let ks: Vec<u64> = blocking.iter().map(|k| self.it.get(k)).collect();
             self.finding(
                 format!("I3: funds locked: fresh valid transaction {} spending unspent output(s) {:?}, which no pooled transaction spends, is rejected", id, ks),
-                if blocking.is_empty() { None } else { class },
+                None,
             );
         }
         if accepted && !valid_full {
@@ -598,6 +540,17 @@ impl Ctx {
         Some(self.op_give_block(b, "own-invalid", false).await)
     }
 
+    /// the rebroadcast (ATR) transactions Block::create adds on the current tip, found by
+    /// letting the second node (same chain) create an empty block that is thrown away
+    async fn rebroadcasts_on_tip(&mut self, ts: u64) -> Vec<Transaction> {
+        let tip = self.tip();
+        self.nonce += 1;
+        match make_block(&self.builder, tip.hash, ts, vec![], false, self.nonce).await {
+            Ok(b) => b.transactions.into_iter().filter(|t| t.transaction_type == TransactionType::ATR).collect(),
+            Err(_) => vec![],
+        }
+    }
+
     /// Mempool::bundle_block as the consensus thread calls it; `after`: 0 = add the block,
     /// 1 = corrupt it first (the addition fails and add_block_failure runs)
     async fn op_bundle(&mut self, gap: u64, after: u8) -> Option<AddClass> {
@@ -639,6 +592,9 @@ impl Ctx {
         if let Some(t) = &stake {
             pre_plus.txs.entry(t.signature).or_insert((vec![], t.transaction_type, 0));
         }
+        let atr = self.rebroadcasts_on_tip(ts).await;
+        let atr_keys: BTreeSet<SaitoUTXOSetKey> =
+            atr.iter().flat_map(|t| t.from.iter().filter(|s| s.amount > 0).map(key_of)).collect();
         let block = self
             .node
             .mempool
@@ -666,6 +622,10 @@ impl Ctx {
                     let s = self.coq_tx(g, 0, true);
                     extra.push(format!("({})", s));
                 }
+                for t in &atr {
+                    let s = self.coq_tx(t, 0, true);
+                    extra.push(format!("({})", s));
+                }
             }
         }
         let coq = format!(
@@ -688,16 +648,25 @@ impl Ctx {
             None => {
                 kind = OpKind::BundleNone;
                 if !pre.same_pool(&post) {
-                    let known = pre_plus.has_dup_spend();
+                    // known only when a rebroadcast of this very block spends what a pooled
+                    // transaction spends, and the pool itself held no double spend
+                    let clash: Vec<u64> = pre
+                        .spenders()
+                        .keys()
+                        .filter(|k| atr_keys.contains(*k))
+                        .map(|k| self.it.get(k))
+                        .collect();
+                    let known = !clash.is_empty() && !pre_plus.has_dup_spend();
                     self.finding(
                         format!(
-                            "I4: bundle_block produced no block but changed the pool: {} -> {} transactions, {} reservations kept, cached work {}",
+                            "I4: bundle_block produced no block but emptied the pool: {} -> {} transactions lost (rebroadcast of pooled-spent output(s) {:?}); {} reservations, cached work {} afterwards",
                             pre.txs.len(),
                             post.txs.len(),
+                            clash,
                             post.umap.len(),
                             post.work
                         ),
-                        if known { Some(Class::FailedCreate) } else { None },
+                        if known { Some(Class::AtrClash) } else { None },
                     );
                     self.stat("bundle:none-but-changed");
                 } else {
@@ -731,7 +700,6 @@ impl Ctx {
             obs,
         );
         let mut block = block?;
-        let tainted = self.work_taint.is_some() || pre.work != pre.sum_work();
         if after == 1 {
             block.burnfee += 1;
             let sk = self.node.sk;
@@ -739,13 +707,7 @@ impl Ctx {
             Some(self.op_give_block(block, "bundled-then-corrupted", false).await)
         } else {
             // "yields a valid block": the node and the second node must accept it
-            let nfind = self.findings.len();
-            let r = self.op_give_block(block, "bundled", !tainted).await;
-            if tainted && r == AddClass::Invalid && self.findings.len() == nfind {
-                let c = self.work_taint.unwrap_or(Class::FailedCreate);
-                self.finding("I4: bundled block rejected; it was bundled on a stale routing-work cache".to_string(), Some(c));
-            }
-            Some(r)
+            Some(self.op_give_block(block, "bundled", true).await)
         }
     }
 
@@ -914,6 +876,49 @@ async fn scripted(c: &mut Ctx, which: u64) {
                 c.op_submit(f, "valid", true).await;
             }
         }
+        // window edge (genesis period 5): a pooled transaction spends an output that the
+        // next block rebroadcasts; Block::create fails after draining the pool
+        6 => {
+            let other: Vec<Slip> = free.iter().filter(|s| s.public_key == c.keys[3].0).cloned().collect();
+            let mut k = 0;
+            for round in 0..14 {
+                let tip = c.tip();
+                let atr = c.rebroadcasts_on_tip(tip.timestamp + GAP).await;
+                let ours: Vec<Slip> = atr
+                    .iter()
+                    .flat_map(|t| t.from.iter().cloned())
+                    .filter(|s| s.amount > 0 && c.keys.iter().any(|(pk, _)| *pk == s.public_key))
+                    .filter(|s| c.node.blockchain.utxoset.get(&key_of(s)).copied().unwrap_or(false))
+                    .collect();
+                if c.debug {
+                    eprintln!("round {} tip {} rebroadcasts {} (spendable by our keys: {})", round, tip.id, atr.len(), ours.len());
+                }
+                if !ours.is_empty() {
+                    // an unrelated pooled transaction: spends an output created after genesis,
+                    // which this block does not rebroadcast
+                    let young: Vec<Slip> = unclaimed(c).into_iter().filter(|s| s.block_id > 1 && s.public_key != c.node.pk).collect();
+                    if let Some(y) = young.first() {
+                        let unrelated = c.build_tx(&[y.clone()], 5, 0, true);
+                        c.op_submit(unrelated, "valid", true).await;
+                    }
+                    let edge = c.build_tx(&ours[0..1], 20, 1, true);
+                    c.op_submit(edge, "valid-window-edge", true).await;
+                    if Ctx::needs_gt(&c.node, tip.hash) {
+                        c.op_add_gt(tip.hash, 900 + round).await;
+                    }
+                    c.op_bundle(GAP, 0).await;
+                    let again = c.build_tx(&mine[0..1], 60, 0, true);
+                    c.op_submit(again, "valid", true).await;
+                    break;
+                }
+                if k + 1 >= other.len() {
+                    break;
+                }
+                let t = c.build_tx(&other[k..k + 1], 10, 2, false);
+                k += 1;
+                c.op_peer_block(vec![t], false, false, "peer-unrelated").await;
+            }
+        }
         // plain life cycle: arrivals, conflict and duplicate rejected, bundle, peer block
         _ => {
             let a = c.build_tx(&mine[0..2], 50, 0, true);
@@ -940,8 +945,9 @@ async fn random_case(c: &mut Ctx, rng: &mut Rng, len: usize) {
         let pooled = pooled_clone(c, 8);
         if r < 30 {
             // fresh valid transaction; prefers outputs under a stale reservation
-            let stale: Vec<Slip> = free.iter().filter(|s| c.stale_origin.contains_key(&key_of(s))).cloned().collect();
-            let pick_from = if !stale.is_empty() && rng.chance(1, 2) { stale } else { free.clone() };
+            // prefers outputs that some transaction spent or reserved earlier in the case
+            let touched: Vec<Slip> = free.iter().filter(|s| c.touched.contains(&key_of(s))).cloned().collect();
+            let pick_from = if !touched.is_empty() && rng.chance(1, 2) { touched } else { free.clone() };
             let mut ins = same_owner(&pick_from, 1, rng);
             if ins.is_empty() {
                 continue;
@@ -1147,7 +1153,9 @@ async fn run_case(kind: u64, seed: u64, len: usize, debug: bool) -> CaseOut {
     // a long heartbeat keeps the burn-fee curve above zero for 20 s, so that
     // can_bundle_block's work comparison matters
     let heartbeat = if kind >= 100 && rng.chance(1, 2) { 10_000 } else { 100 };
-    let mut c = Ctx::new(debug, heartbeat).await;
+    // a short window brings rebroadcasts (ATR) into reach of a short case
+    let genesis_period = if kind == 6 || (kind >= 100 && rng.chance(1, 4)) { 5 } else { 100 };
+    let mut c = Ctx::new(debug, heartbeat, genesis_period).await;
     if kind < 100 {
         scripted(&mut c, kind).await;
     } else {
@@ -1187,7 +1195,7 @@ fn main() {
             }
         }
     };
-    let mut plan: Vec<(u64, u64, usize)> = (0..6u64).map(|k| (k, 0, 0)).collect();
+    let mut plan: Vec<(u64, u64, usize)> = (0..8u64).map(|k| (k, 0, 0)).collect();
     for _ in 0..nrandom {
         let len = rng.range(6, 22) as usize;
         plan.push((100, rng.next(), len));
@@ -1248,17 +1256,9 @@ fn main() {
         }
         summary.evaluations += 1;
     }
-    // C14_MODEL=repair compares with the model of the repair candidate (only meaningful
-    // when the harness is built against a tree carrying that patch; never set by bin/check)
-    let header = if std::env::var("C14_MODEL").map(|v| v == "repair").unwrap_or(false) {
-        "From Saito Require Import Base Mempool MempoolRepair.\n\
+    let header = "From Saito Require Import Base Mempool.\n\
         Definition check (c : list N * list op * list (list (list N))) : bool :=\n\
-        let '(g, ops, expected) := c in eqb_lllN (trace_r (init g) ops) expected."
-    } else {
-        "From Saito Require Import Base Mempool.\n\
-        Definition check (c : list N * list op * list (list (list N))) : bool :=\n\
-        let '(g, ops, expected) := c in eqb_lllN (trace (init g) ops) expected."
-    };
+        let '(g, ops, expected) := c in eqb_lllN (trace (init g) ops) expected.";
     let files = gal::write_shards(
         &format!("{}/cases", args.out),
         "C14",
